@@ -75,6 +75,9 @@ pub enum LimitG {
     Around(i32),
     Tiny,
     Huge,
+    /// at the top of the value range: u64::MAX ("no limit" in a signed reading), u64::MAX - 1, 2^63,
+    /// 2^63 + 2^40, 2^63 - 1
+    Top(u8),
 }
 
 #[derive(Debug, Clone, PartialEq, Eq, Hash, Serialize, Deserialize)]
@@ -198,6 +201,18 @@ pub fn run_case(c: &FCase) -> Result<Obs, RunErr> {
             let th = b.thread_mut(id);
             th.sp = sp;
             th.aux = 0; // set below: app word
+        }
+        if t.kind == K_PARKED {
+            // most stacks are rw-; some are rwx (execstack programs, coroutine stacks allocated with
+            // PROT_EXEC) and some are read-only by the time of the dump
+            let prot = match t.seed % 9 {
+                2 => 7,
+                5 => 1,
+                _ => 3,
+            };
+            if let Some(m) = b.spec.maps.iter_mut().find(|m| m.id == st.map_id) {
+                m.prot = prot;
+            }
         }
         if t.kind == K_PARKED && t.seed % 3 == 0 {
             // every third parked thread has a GS base of its own (its GS selector stays 0)
@@ -348,6 +363,7 @@ pub fn run_case(c: &FCase) -> Result<Obs, RunErr> {
         LimitG::Around(k) => Some((threshold as i64 + k as i64).max(1) as u64),
         LimitG::Tiny => Some(1),
         LimitG::Huge => Some(1 << 40),
+        LimitG::Top(k) => Some([u64::MAX, u64::MAX - 1, 1 << 63, (1 << 63) + (1 << 40), (1 << 63) - 1][k as usize % 5]),
     };
     let opts = DumpOpts { blamed, crash: crash.clone(), size_limit: limit, app_memory: app_regions.clone(), ..Default::default() };
     let maps_before = parse_maps(&t.maps_text().unwrap_or_default());
@@ -464,7 +480,7 @@ pub fn case_strategy(max_threads: usize, min_threads: usize) -> impl Strategy<Va
             )
                 .prop_map(|(rip, rsp_page, rsp_inpage, seed, signo, code, addr, ctx_tid)| FCrash { rip, rsp_page, rsp_inpage, seed, signo, code, addr, ctx_tid }),
         ),
-        prop_oneof![3 => Just(LimitG::None), 3 => (-3i32..4).prop_map(LimitG::Around), 2 => Just(LimitG::Tiny), 1 => Just(LimitG::Huge)],
+        prop_oneof![3 => Just(LimitG::None), 3 => (-3i32..4).prop_map(LimitG::Around), 2 => Just(LimitG::Tiny), 1 => Just(LimitG::Huge), 1 => any::<u8>().prop_map(LimitG::Top)],
         proptest::collection::vec((prop_oneof![3 => 0u16..4, 1 => 0u16..300], any::<bool>()), 0..4),
         proptest::collection::vec(
             (any::<u16>(), any::<u32>(), prop_oneof![Just(0u32), Just(6u32), Just(7u32), Just(8u32), 4094u32..4098, any::<u32>()], proptest::bool::weighted(0.3)).prop_map(|(map, off, len, to_end)| FApp { map, off, len, to_end }),
